@@ -14,6 +14,8 @@
             xz, zstd) is first driven to its end by a 1-byte read whose error propagates and whose non-zero result
             is an error (a decoder that was never pulled leaves its compressed bytes in the block: F10)
   RESET     a reused streaming encoder is reset before each block; bzip2/xz build a fresh encoder per block
+  BLOCKCFG  data blocks are read with a fresh default DeserializerConfig over the file's schema; only the header's
+            configuration is tightened (max_seq_size = 1000)
 It does NOT decide equality of what is read back nor buffer-boundary arithmetic inside the C libraries.
 """
 import re
